@@ -16,6 +16,7 @@ import FordModel.Lemmas.Assets
 import FordModel.Lemmas.Footnotes
 import FordModel.Lemmas.Memo
 import FordModel.Lemmas.PageName
+import FordModel.Lemmas.GraphUrl
 import FordModel.Generated.C09
 namespace Ford.C09
 open Ford Ford.Path Ford.Nav Ford.Url Ford.StrLink Ford.ReadMore Ford.Relurl Ford.Assets Ford.Generated.C09
@@ -568,5 +569,74 @@ example : PageName.withSuffixHtml "a.".toList = "a..html".toList := by decide
 example : PageName.withSuffixHtml ".a".toList = ".a.html".toList := by decide
 example : PageName.linkTo pageTables.names [['o']] [['p', 'a', 'g', 'e'], ['s', 'u', 'b']] [['v', '1', '.', '0']] "a.b.c".toList
     = [up, "v1.0".toList, "a.b.html".toList] := by decide
+
+/-! ## round 6: graph node URLs -/
+
+/-- Generic form, for any tables that pass `GraphUrl.tablesOk` (one step up, gates in place, every template that
+    prints a graph renders pages exactly one directory below the root): on a page of **any** such template, in any
+    directory `pd` directly below any root `base`, the URL of a node of an entity of this project whose `get_url()`
+    is the normal path `u` resolves to `base ++ u` - the file `get_url()` names (see `getUrl_points_at_owner_page`
+    and `entity_url_depth_one`). -/
+theorem graph_node_url_sound (T : GraphUrl.Tables) (hT : GraphUrl.tablesOk T = true)
+    (n : GraphUrl.Node) (hint : n.fromStr = false ∧ n.external = false)
+    (base : List Seg) (pd : Seg) (r : List Seg)
+    (hb : Normal base) (hpd : NormalSeg pd) (hu : ∀ u, n.url = some u → Normal u)
+    (h : GraphUrl.nodeUrl T n = some r) :
+    ∃ u, n.url = some u ∧ resolve (base ++ [pd]) r = base ++ u := by
+  obtain ⟨_, u, hurl, _, hr⟩ := GraphUrl.nodeUrl_some T n r h
+  have hp : T.parentDir = [up] := by
+    simp [GraphUrl.tablesOk] at hT; exact hT.1.1.1.1
+  refine ⟨u, hurl, ?_⟩
+  rcases hr with ⟨_, hk⟩ | ⟨hr, _⟩
+  · simp [hint.1, hint.2] at hk
+  · rw [hr, hp]
+    exact GraphUrl.resolve_up_from_depth_one base pd u hb hpd (hu u hurl)
+
+/-- Clause "every URL ... embedded SVG graphs ... resolves", over the regenerated tables (`graphTables`: prefix read
+    from `Documentation.__init__`, gates probed on the real `BaseNode`, host templates from the Jinja AST with the
+    depth of real page objects): every clickable node of an entity of the project, on every page that prints a graph. -/
+theorem graph_node_url_resolves (n : GraphUrl.Node) (hint : n.fromStr = false ∧ n.external = false)
+    (base : List Seg) (pd : Seg) (r : List Seg)
+    (hb : Normal base) (hpd : NormalSeg pd) (hu : ∀ u, n.url = some u → Normal u)
+    (h : GraphUrl.nodeUrl graphTables n = some r) :
+    ∃ u, n.url = some u ∧ resolve (base ++ [pd]) r = base ++ u :=
+  graph_node_url_sound graphTables (by decide) n hint base pd r hb hpd hu h
+
+/-- ... and only entities that are displayed get a clickable node: an entity whose page the `display` /
+    `hide_undoc` settings removed (`visible = False`), and a binding of such a type, have no URL in any graph. -/
+theorem graph_node_url_only_if_visible (n : GraphUrl.Node) (r : List Seg)
+    (h : GraphUrl.nodeUrl graphTables n = some r) :
+    n.visible = true ∧ (n.bound = true → n.parentVisible = true) := by
+  obtain ⟨hs, _⟩ := GraphUrl.nodeUrl_some graphTables n r h
+  have hv : graphTables.visibleGate = true := by decide
+  have hbg : graphTables.boundGate = true := by decide
+  simp [GraphUrl.shown, hv, hbg] at hs
+  refine ⟨hs.1, fun hb => ?_⟩
+  rcases hs.2 with h | h
+  · simp [hb] at h
+  · exact h
+
+/-- every template that prints a graph renders its pages exactly one directory below the root (so that the one
+    prefix `../` of the run is right for all of them); in particular `index.html`, `search.html` and the static
+    pages print none. -/
+theorem graph_hosts_depth_one (h : Str × GraphUrl.Depth) (hh : h ∈ graphTables.hosts) : h.2 = .one := by
+  have hall : graphTables.hosts.all (fun h => decide (h.2 = .one)) = true := by decide
+  simpa using List.all_eq_true.1 hall h hh
+
+/-- Why the depth matters: the same node URL on a page at the root (a graph printed on `index.html`) leaves the
+    output directory's tree of pages - it resolves to `/module/m.html` next to, not inside, `/out`. -/
+theorem graph_node_url_depth_zero_witness :
+    let n : GraphUrl.Node := ⟨false, false, some ["module".toList, "m.html".toList], true, false, true⟩
+    GraphUrl.nodeUrl graphTables n = some [up, "module".toList, "m.html".toList] ∧
+    resolve ["out".toList] [up, "module".toList, "m.html".toList] = ["module".toList, "m.html".toList] := by
+  decide
+
+example : GraphUrl.nodeUrl graphTables ⟨false, false, some ["proc".toList, "p.html".toList], false, false, true⟩ = none := by decide
+example : GraphUrl.nodeUrl graphTables ⟨false, false, some ["type".toList, "t.html#boundprocedure-b".toList], true, true, false⟩ = none := by
+  decide
+example : GraphUrl.nodeUrl graphTables ⟨true, false, some ["https:".toList, [], "x.org".toList], true, false, true⟩
+    = some ["https:".toList, [], "x.org".toList] := by decide
+example : resolve ["out".toList, "lists".toList] [up, "module".toList, "m.html".toList] = ["out".toList, "module".toList, "m.html".toList] := by
+  decide
 
 end Ford.C09
